@@ -104,8 +104,154 @@ fn list(rng: &mut Rng, max_items: usize, max_each: usize) -> Vec<Vec<u8>> {
     (0..n).map(|_| blob(rng, max_each)).collect()
 }
 
-/// a well-formed handshake message of the given kind whose encoding is at most ~`budget` bytes
+/// SHA-256("HelloRetryRequest"): the ServerHello.random that marks a TLS 1.3 HelloRetryRequest
+pub const HRR_RANDOM: [u8; 32] = [
+    0xcf, 0x21, 0xad, 0x74, 0xe5, 0x9a, 0x61, 0x11, 0xbe, 0x1d, 0x8c, 0x02, 0x1e, 0x65, 0xb8, 0x91, 0xc2, 0xa2, 0x11, 0x16, 0x7a, 0xbb, 0x8c, 0x5e, 0x07, 0x9e, 0x09, 0xe2, 0xc8, 0xa8, 0x33, 0x9c,
+];
+
+/// hello randoms that mean something to real stacks
+fn semantic_random(rng: &mut Rng) -> Vec<u8> {
+    let mut r = rng.bytes(32);
+    match rng.below(5) {
+        0 => r = HRR_RANDOM.to_vec(),
+        1 => r[24..].copy_from_slice(b"DOWNGRD\x01"),
+        2 => r[24..].copy_from_slice(b"DOWNGRD\x00"),
+        3 => r = vec![*rng.pick(&[0u8, 0xff]); 32],
+        _ => r[..4].copy_from_slice(&0x5f00_0000u32.to_be_bytes()),
+    }
+    r
+}
+
+/// a DER length
+fn der_len(v: &mut Vec<u8>, n: usize, long_form: bool) {
+    if n < 128 && !long_form {
+        v.push(n as u8);
+    } else if n < 256 {
+        v.extend_from_slice(&[0x81, n as u8]);
+    } else {
+        v.extend_from_slice(&[0x82, (n >> 8) as u8, n as u8]);
+    }
+}
+
+/// the start of a DER OCSPResponse: SEQUENCE { ENUMERATED responseStatus, [0] responseBytes? }
+fn ocsp_response(rng: &mut Rng) -> Vec<u8> {
+    let status = *rng.pick(&[0u8, 1, 2, 3, 5, 6, 4, 0x7f]);
+    let mut inner = vec![0x0a, 0x01, status];
+    if status == 0 || rng.chance(1, 4) {
+        let n = rng.small_len(60);
+        inner.push(0xa0);
+        der_len(&mut inner, n, false);
+        inner.extend(rng.bytes(n));
+    }
+    let mut v = vec![0x30];
+    der_len(&mut v, inner.len(), rng.chance(1, 4));
+    v.extend(inner);
+    v
+}
+
+/// a digitally-signed structure with registry-meaningful algorithm bytes (TLS 1.2 hash/signature
+/// pairs incl. anonymous, TLS 1.3 signature schemes) and a consistent length
+fn digitally_signed(rng: &mut Rng, max: usize) -> Vec<u8> {
+    let (h, sg) = match rng.below(3) {
+        0 => (*rng.pick(&[0u8, 1, 2, 3, 4, 5, 6]), *rng.pick(&[0u8, 1, 2, 3])),
+        1 => {
+            let x = *rng.pick(&[0x0804u16, 0x0805, 0x0806, 0x0807, 0x0808, 0x0403, 0x0503, 0x0603, 0x0401, 0x0201, 0x0203]);
+            ((x >> 8) as u8, x as u8)
+        }
+        _ => (rng.u8(), rng.u8()),
+    };
+    let n = rng.small_len(max.max(1));
+    let mut v = vec![h, sg];
+    v.extend_from_slice(&(n as u16).to_be_bytes());
+    v.extend(rng.bytes(n));
+    v
+}
+
+/// something that looks like a DER certificate / name: SEQUENCE with a consistent length
+fn der_blob(rng: &mut Rng, max: usize) -> Vec<u8> {
+    let n = rng.small_len(max.max(1));
+    let mut v = vec![0x30];
+    der_len(&mut v, n, rng.chance(1, 3));
+    v.extend(rng.bytes(n));
+    v
+}
+
+/// Give a message the inner structure real traffic has (consumers - and content-dependent bugs -
+/// look inside the fields this crate keeps opaque)
+fn semantic(rng: &mut Rng, mut m: Item, budget: usize) -> Item {
+    use crate::item::Val;
+    let b = budget.max(80);
+    match m.kind.as_str() {
+        "client_hello" | "server_hello" | "server_hello_d18" | "d_client_hello" => m.set("random", Val::Bytes(semantic_random(rng))),
+        "certificate_status" => {
+            m.set("stype", Val::Int(*rng.pick(&[1u64, 1, 1, 2, 0])));
+            m.set("blob", Val::Bytes(ocsp_response(rng)));
+        }
+        "certificate_verify" => m.set("body", Val::Bytes(digitally_signed(rng, b.min(600)))),
+        "server_key_exchange" => {
+            let mut p = match rng.below(3) {
+                0 => crate::structs::dh_params(rng),
+                _ => crate::structs::ecdh_params(rng),
+            };
+            if rng.chance(3, 4) {
+                p.extend(digitally_signed(rng, 300));
+            }
+            m.set("params", Val::Bytes(p));
+        }
+        "client_key_exchange" => {
+            let n = *rng.pick(&[32usize, 33, 48, 65, 97, 128, 256]);
+            let mut v = Vec::new();
+            if rng.chance(1, 2) {
+                v.push(n.min(255) as u8);
+                v.extend(rng.bytes(n.min(255)));
+            } else {
+                v.extend_from_slice(&(n as u16).to_be_bytes());
+                v.extend(rng.bytes(n));
+            }
+            m.set("body", Val::Bytes(v));
+        }
+        "finished" => {
+            let n = *rng.pick(&[12usize, 12, 32, 48, 36]);
+            m.set("body", Val::Bytes(rng.bytes(n)));
+        }
+        "certificate" => {
+            let n = rng.urange(1, 4);
+            m.set("certs", Val::List((0..n).map(|_| der_blob(rng, b / 2)).collect()));
+        }
+        "certificate_request" => {
+            let nt = rng.urange(1, 4);
+            m.set("types", Val::Bytes((0..nt).map(|_| *rng.pick(&[1u8, 2, 3, 4, 64, 65, 66])).collect()));
+            if m.ob("sigalgs").is_some() {
+                let na = rng.urange(1, 8);
+                m.set("sigalgs", Val::Bytes((0..na).flat_map(|_| rng.pick(&[0x0403u16, 0x0804, 0x0401, 0x0503, 0x0201, 0x0807, 0x0000, 0x0100]).to_be_bytes()).collect()));
+            }
+            let nc = rng.urange(0, 3);
+            m.set("cas", Val::List((0..nc).map(|_| der_blob(rng, 60)).collect()));
+        }
+        "next_protocol" => {
+            m.set("proto", Val::Bytes(rng.pick(&[&b"h2"[..], b"http/1.1", b"spdy/3.1", b""]).to_vec()));
+            let pl = m.b("proto").len();
+            m.set("padding", Val::Bytes(vec![0; 32 - ((pl + 2) % 32)]));
+        }
+        "key_update" => m.set("v", Val::Int(rng.below(2))),
+        _ => {}
+    }
+    m
+}
+
+/// a well-formed handshake message of the given kind whose encoding is at most ~`budget` bytes:
+/// opaque fields filled with arbitrary bytes, or (one time in three) with the inner structure
+/// real traffic carries
 pub fn handshake(rng: &mut Rng, kind: &str, budget: usize) -> Item {
+    let m = handshake_plain(rng, kind, budget);
+    if rng.chance(1, 3) {
+        semantic(rng, m, budget)
+    } else {
+        m
+    }
+}
+
+fn handshake_plain(rng: &mut Rng, kind: &str, budget: usize) -> Item {
     let b = budget.max(80);
     let it = Item::new(kind);
     match kind {
@@ -332,9 +478,10 @@ pub fn d_client_hello(rng: &mut Rng, budget: usize) -> Item {
         1 => 255,
         _ => rng.small_len(255),
     };
+    let random = if rng.chance(1, 4) { semantic_random(rng) } else { rng.bytes(32) };
     Item::new("d_client_hello")
         .int("ver", *rng.pick(&[0xfeffu16, 0xfefd, 0xfefd, 0x0100]) as u64)
-        .bytes("random", &rng.bytes(32))
+        .bytes("random", &random)
         .opt_bytes("sid", sid(rng).as_deref())
         .bytes("cookie", &rng.bytes(cookie_len))
         .bytes("ciphers", &rng.bytes(n * 2))
